@@ -431,38 +431,44 @@ def r194(ctx):
         nxt = b.term(bi).targets[:1]
         again = any(ib & fv.reach(v, cut_nodes={h}) for v in nxt)
         ctx.ob("R19.4", not again, f"{key}/one-input-per-iteration", "an input can be pushed twice in one iteration", where=f"{b.file}:{c.line}")
-    # flag value: true only under is_witness_program(output[prevout.vout]) == true, false only elsewhere
+    # flag value: true only if the *proven* spent output (output[prevout.vout] of the streamed previous tx) is a
+    # witness program; an input that came without a previous transaction gets false
+    def proven(e):
+        r_ = render(e)
+        return ".output[" in r_ and "non_witness_utxo" in r_ and "unsigned_tx.input[" in r_ and "Iterator>::next(" in r_ \
+            and ")?.0].previous_output.vout]" in r_ and r_.rstrip(")").endswith(".script_pubkey")
     wit = [(bi, c) for bi, c in b.calls() if bi in in_loop and c.callee and c.callee.name.endswith("Script::is_witness_program")]
-    ctx.ob("R19.4", len(wit) == 1, f"{key}/witness-test", f"{len(wit)} is_witness_program tests in the input loop", where=f"{b.file}:{nc.line}")
-    if len(wit) == 1:
-        wbi, wc = wit[0]
-        arg = render(nv.expr(wc.args[0]))
-        ctx.ob("R19.4", "output" in arg and "script_pubkey" in arg, f"{key}/witness-test-subject", f"witness test applies to `{arg[:100]}`",
-               where=f"{b.file}:{wc.line}", sample=arg[:100])
-        oexpr = render(fv.expr(wc.args[0]))
-        ctx.ob("R19.4", ".output[" in oexpr and "unsigned_tx.input[" in oexpr and "Iterator>::next(" in oexpr and ")?.0].previous_output.vout]" in oexpr and oexpr.endswith(".script_pubkey"), f"{key}/witness-test-output",
-               f"witness test subject is `{oexpr[:160]}`, not the output selected by the input's outpoint index",
-               where=f"{b.file}:{wc.line}", sample="input_tx.output[prevout.vout].script_pubkey")
-        te = fv.result_edges(wbi, wc, "ok")
-        fe = fv.result_edges(wbi, wc, "err")
-        for bi, c in flag:
-            v = fv.expr(c.args[1])
-            rv_ = render(v)
-            if rv_ == "true":
-                ok = bool(te) and bi not in fv.reach(0, cut_edges=te)
-                ctx.ob("R19.4", ok, f"{key}/true-only-if-witness", "segwit flag `true` is pushed on a path where the spent output is not known to be a witness program",
-                       where=f"{b.file}:{c.line}", sample="push(true) dominated by is_witness_program == true")
-            elif rv_ == "false":
-                ok = True
-                for (u, t) in te:
-                    if bi in fv.reach(t, cut_nodes={h}):
-                        ok = False
-                ctx.ob("R19.4", ok, f"{key}/false-not-if-witness", "segwit flag `false` is pushed although the spent output is a witness program",
-                       where=f"{b.file}:{c.line}", sample="push(false) unreachable from is_witness_program == true within the iteration")
-            else:
-                ok = R.mentions_call(v, "is_witness_program") and v[0] == "call"
-                ctx.ob("R19.4", ok, f"{key}/flag-value", f"segwit flag value `{rv_[:80]}` is not the witness test of the spent output",
-                       where=f"{b.file}:{c.line}", sample=rv_[:80])
+    const_pushes = [(bi, c) for bi, c in flag if render(fv.expr(c.args[1])) in ("true", "false")]
+    for wbi, wc in wit:
+        oexpr = fv.expr(wc.args[0])
+        ctx.ob("R19.4", proven(oexpr), f"{key}/witness-test-output",
+               f"witness test subject is `{render(oexpr)[:160]}`, not the output of the streamed previous transaction selected by "
+               f"the input's outpoint index", where=f"{b.file}:{wc.line}", sample="input_tx.output[prevout.vout].script_pubkey")
+    te = set()
+    for wbi, wc in wit:
+        if proven(fv.expr(wc.args[0])):
+            te |= fv.result_edges(wbi, wc, "ok")
+    for bi, c in flag:
+        v = fv.expr(c.args[1])
+        rv_ = render(v)
+        if rv_ == "true":
+            ok = bool(te) and bi not in fv.reach(0, cut_edges=te)
+            ctx.ob("R19.4", ok, f"{key}/true-only-if-witness", "segwit flag `true` is pushed on a path where the proven spent output is not known to be a witness program",
+                   where=f"{b.file}:{c.line}", sample="push(true) dominated by is_witness_program(proven output) == true")
+        elif rv_ == "false":
+            ok = True
+            for (u, t) in te:
+                if bi in fv.reach(t, cut_nodes={h}):
+                    ok = False
+            ctx.ob("R19.4", ok, f"{key}/false-not-if-witness", "segwit flag `false` is pushed although the spent output is a witness program",
+                   where=f"{b.file}:{c.line}", sample="push(false) unreachable from is_witness_program == true within the iteration")
+        else:
+            inner = strip_ref(v)
+            ok = inner[0] == "call" and inner[1].endswith("Script::is_witness_program") and proven(inner[2][0])
+            ctx.ob("R19.4", ok, f"{key}/flag-value",
+                   f"segwit flag value `{rv_[:140]}` is not the witness test of the proven spent output (the output of the streamed "
+                   f"previous transaction): a flag derived from anything else, e.g. the sender-supplied witness_utxo, is an unproven claim",
+                   where=f"{b.file}:{c.line}", sample=rv_[:80])
     # previous tx accepted only if txid matches and the output index exists (refusal scenarios)
     eqs = R.eq_sites(nv, lambda x, y: "compute_txid" in x and "previous_output.txid" in y)
     ctx.ob("R19.4", len(eqs) >= 1, f"{key}/txid-compared", "the streamed previous transaction's txid is not compared with the input's outpoint",
